@@ -53,10 +53,11 @@ fn shape_for(prop: &str, i: usize) -> Shape {
             s.p_multi = 40;
             s.p_nest = 6;
             s.tl_in_batch = v == 3;
-            real::POOL_SIZE.store([8, 2, 1, 3][v], std::sync::atomic::Ordering::SeqCst);
+            real::POOL_SIZE.store([8, 3, 2, 1][v], std::sync::atomic::Ordering::SeqCst);
         }
         "C07" => {
             s.p_batch = 35;
+            s.p_multi = [0, 50, 25, 0][v];
             s.n_res = 3 + v;
             s.p_barrier = 12;
             s.p_dep = 30;
